@@ -182,6 +182,7 @@ type Strategy interface {
 type Sched struct {
 	atomics     map[uintptr]*AtomicCell
 	postPending bool
+	gpCount     int
 	gs          []*G
 	sorted      []*G // live and finished goroutines in id order
 	parked      chan *G
@@ -690,9 +691,16 @@ func (c *Chan[T]) Cap() int { return c.cap }
 // ---------- WaitGroup ----------
 
 type WaitGroup struct {
-	real sync.WaitGroup
-	n    int
-	vc   VC
+	real  sync.WaitGroup
+	n     int
+	vc    VC
+	owner *Sched
+}
+
+func (w *WaitGroup) enter(s *Sched) {
+	if w.owner != s {
+		w.owner, w.n, w.vc = s, 0, nil
+	}
 }
 
 func (w *WaitGroup) Add(d int) {
@@ -704,6 +712,7 @@ func (w *WaitGroup) Add(d int) {
 	if s.aborting {
 		return
 	}
+	w.enter(s)
 	s.park(OpWGAdd, w, d)
 	s.last.tick()
 	w.n += d
@@ -726,6 +735,7 @@ func (w *WaitGroup) Done() {
 	if s.aborting {
 		return
 	}
+	w.enter(s)
 	s.park(OpWGDone, w, 0)
 	s.last.tick()
 	if w.vc == nil {
@@ -746,6 +756,7 @@ func (w *WaitGroup) Wait() {
 	if s.aborting {
 		return
 	}
+	w.enter(s)
 	s.park(OpWGWait, w, 0)
 	if w.vc != nil {
 		joinInto(s.last.vc, w.vc)
@@ -765,6 +776,14 @@ type Mutex struct {
 	real   sync.Mutex
 	locked bool
 	vc     VC
+	owner  *Sched // the controlled execution the state belongs to: a package-level mutex of the code under
+	// test starts every execution unlocked (an execution that was cut may have ended with the lock held)
+}
+
+func (m *Mutex) enter(s *Sched) {
+	if m.owner != s {
+		m.owner, m.locked, m.vc = s, false, nil
+	}
 }
 
 func (m *Mutex) canLock() bool  { return !m.locked }
@@ -778,6 +797,7 @@ func (m *Mutex) Lock() {
 	if s.aborting {
 		return
 	}
+	m.enter(s)
 	s.park(OpLock, m, 0)
 	if m.vc != nil {
 		joinInto(s.last.vc, m.vc)
@@ -793,6 +813,7 @@ func (m *Mutex) TryLock() bool {
 	if s.aborting {
 		return true
 	}
+	m.enter(s)
 	s.park(OpYield, m, 0)
 	if m.locked {
 		return false
@@ -813,6 +834,7 @@ func (m *Mutex) Unlock() {
 	if s.aborting {
 		return
 	}
+	m.enter(s)
 	s.park(OpUnlock, m, 0)
 	if !m.locked {
 		panic("sync: unlock of unlocked mutex")
@@ -828,6 +850,13 @@ type RWMutex struct {
 	writer  bool
 	readers int
 	vc      VC
+	owner   *Sched
+}
+
+func (m *RWMutex) enter(s *Sched) {
+	if m.owner != s {
+		m.owner, m.writer, m.readers, m.vc = s, false, 0, nil
+	}
 }
 
 func (m *RWMutex) canLock() bool  { return !m.writer && m.readers == 0 }
@@ -841,6 +870,7 @@ func (m *RWMutex) Lock() {
 	if s.aborting {
 		return
 	}
+	m.enter(s)
 	s.park(OpLock, m, 0)
 	if m.vc != nil {
 		joinInto(s.last.vc, m.vc)
@@ -857,6 +887,7 @@ func (m *RWMutex) Unlock() {
 	if s.aborting {
 		return
 	}
+	m.enter(s)
 	s.park(OpUnlock, m, 0)
 	s.last.tick()
 	m.vc = copyVC(s.last.vc)
@@ -872,6 +903,7 @@ func (m *RWMutex) RLock() {
 	if s.aborting {
 		return
 	}
+	m.enter(s)
 	s.park(OpRLock, m, 0)
 	if m.vc != nil {
 		joinInto(s.last.vc, m.vc)
@@ -888,6 +920,7 @@ func (m *RWMutex) RUnlock() {
 	if s.aborting {
 		return
 	}
+	m.enter(s)
 	s.park(OpRUnlock, m, 0)
 	s.last.tick()
 	if m.vc == nil {
@@ -903,6 +936,7 @@ type Once struct {
 	done    bool
 	running bool
 	vc      VC
+	owner   *Sched // "done" legitimately survives executions; "running" of a cut execution does not
 }
 
 func (o *Once) Do(f func()) {
@@ -913,6 +947,12 @@ func (o *Once) Do(f func()) {
 	}
 	if s.aborting {
 		return
+	}
+	if o.owner != s {
+		o.owner, o.running = s, false
+		if !o.done {
+			o.vc = nil
+		}
 	}
 	s.park(OpOnce, o, 0)
 	if o.vc != nil {
@@ -1144,4 +1184,29 @@ func AtomicDone() {
 	}
 	s.postPending = false
 	s.post()
+}
+
+// GlobalPoints turns the points that the instrumenter places around statements naming package-level
+// variables of go-ipa into scheduling points (see engine/instrument). Set by the two-callers harnesses.
+var GlobalPoints bool
+
+// GP is called by instrumented code before and after statements that access package-level variables.
+func GP() {
+	if GlobalPoints {
+		gp()
+	}
+}
+
+// GlobalPointBudget: global-access points per execution; further ones are inert (count-based, so a replay
+// sees the same points). Heavy calls read package-level curve parameters millions of times.
+var GlobalPointBudget = 20000
+
+func gp() {
+	s := cur
+	if s == nil || s.aborting || s.gpCount >= GlobalPointBudget {
+		return
+	}
+	s.gpCount++
+	s.park(OpYield, nil, 0)
+	s.last.tick()
 }
